@@ -82,6 +82,6 @@ ActorStep(st, q) ==
     [] q.op = "ExportSecret" ->
          IF ~open THEN Fail(st, "NotOpen")
          ELSE IF doc.cap # "write" THEN Fail(st, "ReadOnly") ELSE Ok(st, <<>>)
-    [] q.op = "Flush" -> Ok(st, <<>>)
+    [] q.op \in {"Flush", "List"} -> Ok(st, <<>>)
     [] OTHER -> Fail(st, "BadRequest")
 =============================================================================
